@@ -23,7 +23,7 @@ class Sched
 {
 public:
     static constexpr int MAIN = -1;
-    enum St { IDLE, READY, AT_POINT, FINISHED };
+    enum St { IDLE, READY, AT_POINT, BLOCKED, FINISHED };
 
     explicit Sched(int n)
         : m_n(n)
@@ -94,6 +94,33 @@ public:
         give(MAIN);
         wait_turn(i);
         tl_busy = false;
+    }
+
+    // "make waiting visible": called from interposed blocking primitives (static-initialisation guards, mutexes, once
+    // flags) when the resource is held by another thread. The caller is not enabled again until some other thread has
+    // taken a step; if nobody else can run, the explorer reports a deadlock.
+    void point_blocked()
+    {
+        int i = tl_id;
+        if (i < 0) return;
+        tl_busy = true;
+        m_state[i] = BLOCKED;
+        give(MAIN);
+        wait_turn(i);
+        tl_busy = false;
+    }
+    bool any_blocked() const
+    {
+        for (int i = 0; i < m_n; ++i) {
+            if (m_state[i] == BLOCKED) return true;
+        }
+        return false;
+    }
+    void unblock_others(int stepped)
+    {
+        for (int i = 0; i < m_n; ++i) {
+            if (i != stepped && m_state[i] == BLOCKED) m_state[i] = AT_POINT;
+        }
     }
 
 private:
@@ -169,6 +196,7 @@ struct Execution {
     std::vector<Point> points;
     std::vector<int> order;            // thread id chosen at each point
     int preemptions = 0;
+    bool deadlock = false;             // ended with threads blocked on each other (through interposed primitives)
 };
 
 // Runs one execution. prefix gives the choice index at the first |prefix| points (out of range = hard error);
@@ -200,8 +228,10 @@ inline bool run_schedule(Sched & s, const std::vector<int> & prefix, Execution &
         x.order.push_back(next);
         running = next;
         s.step(next);
+        s.unblock_others(next);
         ++k;
     }
+    x.deadlock = s.any_blocked();  // nobody enabled, somebody still waiting for a resource another waiter holds
     return true;
 }
 
